@@ -1,4 +1,5 @@
 import ConduitModel.Generated.Ctl
+import ConduitModel.Generated.Gate
 import ConduitModel.Props.C16
 
 /-!
@@ -43,5 +44,93 @@ theorem C16_fact_recheck_precedes_gate : isRunningReads = 2 ∧ isRunningReadsBe
 theorem C16_fact_running_statuses :
     runningStatuses = ["pipeline.StatusRunning", "pipeline.StatusRecovering", "pipeline.StatusDegraded"] ∧
     (List.range 7).filter Conduit.Ctl.isRunningStatus = [1, 4, 5] := by decide
+
+/-! ## the per-pipeline lock table (`pkg/provisioning/lock.go`) -/
+
+open Conduit.Generated.Gate
+
+/-- the section structure of `pipelineLocks.Lock`, regenerated: the map lookup, the creation of
+the mutex and the map insert sit inside ONE `p.mu` section; the per-id mutex is acquired after
+that section is left. This is the structure `C16_apply_lock_mutual_exclusion` is proved for
+(`codeShape`); the split variant (`splitShape`) has a counterexample. -/
+theorem C16_fact_lock_sections :
+    lockSegments = [("Lock", ["lookup", "create", "insert"]), ("-", ["acquire", "return-release"])] ∧
+    Conduit.LockTable.shapeOfSegments lockSegments = some Conduit.LockTable.codeShape := by decide
+
+/-- nothing else touches the map: only `Lock` (and the constructor). -/
+theorem C16_fact_lock_map_private : lockMapAccessors = ["Lock", "newPipelineLocks"] := by decide
+
+/-- `ApplyPlan` and `ApplyPlanLive` — and nothing else — take the lock of `desired.ID` as their
+first statement and defer the release in the next one: it is held for the entire body. -/
+theorem C16_fact_lock_held_for_body :
+    lockCallers = [("ApplyPlan", "desired.ID", true, true), ("ApplyPlanLive", "desired.ID", true, true)] := by decide
+
+/-! ## the authorisation gate of the live apply -/
+
+/-- there is one construction site of the pipeline API: `Runtime.serveGRPCAPI`. -/
+theorem C16_fact_api_gate_sites : apiGateSites.map (·.1) = ["pkg/conduit/runtime.go:serveGRPCAPI"] := by decide
+
+/-- C16.api_gate_is_operator_flag — the allow flag handed to `api.NewPipelineAPIv1` (its source
+expression regenerated and translated, local definitions inlined) is, for every configuration,
+exactly the operator flag `Config.API.AllowLiveRestartApply` — dev mode does not imply it. -/
+theorem C16_api_gate_is_operator_flag : ∀ cfg : GateCfg, apiGate cfg = cfg.API_AllowLiveRestartApply := by
+  intro cfg; rfl
+
+/-- the handler hands exactly its constructor argument to `ApplyPlanLive`: the constructor
+stores its parameter in the field, nothing else writes the field, the handler passes the field. -/
+theorem C16_api_handler_passes_constructor_arg :
+    (∀ a, apiHandlerPasses (apiCtorStores a) = a) ∧ apiGateFieldWriters = ["NewPipelineAPIv1"] :=
+  ⟨fun _ => rfl, by decide⟩
+
+/-- every caller of `ApplyPlanLive`: the API handler (passing its field) and the dev watcher
+(passing `true`), nothing else. -/
+theorem C16_fact_apply_live_sites :
+    applyLiveSites = [("pkg/conduit/dev/apply.go:applyPipeline", "true"),
+                      ("pkg/http/api/pipeline_v1.go:ApplyPipeline", "p.allowLiveRestartApply")] := by decide
+
+/-- the dev watcher is started iff `Config.Dev.Enabled`. -/
+theorem C16_fact_dev_watcher_guard :
+    (∀ cfg : GateCfg, devWatcherGuard cfg = cfg.Dev_Enabled) ∧ devWatcherSites.length = 1 :=
+  ⟨fun _ => rfl, by decide⟩
+
+/-- who calls `ApplyPlanLive`. -/
+inductive ApplySource where
+  | api | devWatcher
+deriving DecidableEq, Repr
+
+/-- the caller exists in a server with this configuration. -/
+def sourceExists (cfg : GateCfg) : ApplySource → Bool
+  | .api => true
+  | .devWatcher => devWatcherGuard cfg
+
+/-- the `allowRestartOnRunning` argument the caller passes, as regenerated. -/
+def allowArg (cfg : GateCfg) : ApplySource → Bool
+  | .api => apiHandlerPasses (apiCtorStores (apiGate cfg))
+  | .devWatcher => true
+
+open Conduit.Ctl in
+/-- C16 "a running pipeline is touched only with operator authorisation", end to end: for every
+server configuration and every caller of `ApplyPlanLive` that exists under it — if the pipeline
+is running when the gate is evaluated, the plan is non-empty, and the apply did anything but
+refuse with `unauth` leaving everything as it was, then the operator flag
+`--api.allow-live-restart-apply` is set, or the caller is the dev WATCHER of a server started in
+dev mode. (`C16_running_needs_authorisation` + the regenerated gate expressions.) -/
+theorem C16_running_touched_needs_flag_or_watcher (cfg : GateCfg) (src : ApplySource) (hsrc : sourceExists cfg src = true)
+    (v : Variant) (c : PipeCfg) (env : LiveEnv) (s : St) (old : Option PipeCfg)
+    (hex : exportPl v s.mem c.id = .ok old) (hrun : runningNow (flipState c env s) c.id = true)
+    (hne : build v 1 old c ≠ [])
+    (htouched : applyPlanLive v c (planView v old c) (allowArg cfg src) env s ≠ (.error .unauth, flipState c env s, [])) :
+    cfg.API_AllowLiveRestartApply = true ∨ (src = .devWatcher ∧ cfg.Dev_Enabled = true) := by
+  cases src with
+  | devWatcher => exact Or.inr ⟨rfl, by rw [← C16_fact_dev_watcher_guard.1 cfg]; exact hsrc⟩
+  | api =>
+    have hallow : allowArg cfg .api = cfg.API_AllowLiveRestartApply := by
+      show apiHandlerPasses (apiCtorStores (apiGate cfg)) = _
+      rw [C16_api_handler_passes_constructor_arg.1, C16_api_gate_is_operator_flag]
+    cases hf : cfg.API_AllowLiveRestartApply with
+    | true => exact Or.inl rfl
+    | false =>
+      rw [hallow, hf] at htouched
+      exact absurd (C16_running_needs_authorisation v c env s old hex hrun hne) htouched
 
 end Conduit.Facts.C16
